@@ -41,6 +41,7 @@
   `HL.Completion.Pinned`) for the kernel-checked `pinned_*_counterexample` theorems.
 -/
 import HL.Model.Text
+import HL.Generated.Facts
 namespace HL.Completion
 open HL.Text
 
@@ -371,7 +372,13 @@ def labelsFor (lower : Char → Char) (t : Table) (c : Ctx) (line : Str) (col : 
 
 /-! ### Matching and scoring -/
 
-def fuzzyScoreEmptyPattern : Nat := 1000
+/-- The four score constants of completion.go are REGENERATED facts (HL/Generated/Facts.lean):
+    the model scores with the values the source has now.  Proofs use only that the base score
+    and the empty-pattern score are positive (HL/Generated/Expect/Completion.lean). -/
+def fuzzyScoreEmptyPattern : Nat := HL.Generated.Facts.fuzzyScoreEmptyPattern
+def scoreBase : Nat := HL.Generated.Facts.fuzzyScoreBaseMatch
+def scoreConsecutive : Nat := HL.Generated.Facts.fuzzyScoreConsecutiveBonus
+def scoreBoundary : Nat := HL.Generated.Facts.fuzzyScoreWordBoundary
 
 /-- The loop of `fuzzyMatchScore` over the lower-cased runes: `i` index of the head of the text,
     `prev` the previous text rune, `last` = `lastMatchIdx`, `bonus` = `consecutiveBonus`.
@@ -381,9 +388,9 @@ def fuzzyLoop : Str → Str → Nat → Option Char → Int → Nat → Nat → 
   | _ :: _, [], _, _, _, _, score => (score, [])
   | t :: ts, p :: ps, i, prev, last, bonus, score =>
     if t = p then
-      let score := score + 10
-      let bs : Nat × Nat := if last = (i : Int) - 1 then (bonus + 5, score + (bonus + 5)) else (0, score)
-      let score := if i = 0 ∨ prev = some ':' then bs.2 + 15 else bs.2
+      let score := score + scoreBase
+      let bs : Nat × Nat := if last = (i : Int) - 1 then (bonus + scoreConsecutive, score + (bonus + scoreConsecutive)) else (0, score)
+      let score := if i = 0 ∨ prev = some ':' then bs.2 + scoreBoundary else bs.2
       fuzzyLoop ts ps (i + 1) (some t) i bs.1 score
     else fuzzyLoop ts (p :: ps) (i + 1) (some t) last bonus score
 
